@@ -476,6 +476,36 @@ Theorem decode_node_former_panics :
   decode_node (node_key_bytes 1 1) [2; 4; 1; 97; 0; 2; 5; 1; 2; 3; 4; 5; 2; 4]%N = DErr.
 Proof. vm_compute. split; reflexivity. Qed.
 
+(** whatever [MakeNode] returns can be re-encoded and sized without error or panic *)
+Lemma child_guard_writes L c :
+  child_guard L c ->
+  exists kb, child_key_bytes c = Some kb /\
+    (exists b, write_child (length kb =? 32)%nat kb = DOk b) /\
+    (exists sz, child_size c = DOk sz).
+Proof.
+  destruct c as [|v n|h]; cbn [child_guard child_key_bytes]; intros H; [contradiction| |].
+  - eexists; split; [reflexivity|]. unfold child_size. cbn [child_key_bytes].
+    rewrite node_key_bytes_length. cbn [Nat.eqb]. unfold write_child.
+    destruct (parse_node_key_ok (node_key_bytes v n)) as (v0 & n0 & ->);
+      [rewrite node_key_bytes_length; lia|]. eauto.
+  - destruct H as [H _]. eexists; split; [reflexivity|]. unfold child_size. cbn [child_key_bytes].
+    rewrite H. cbn [Nat.eqb write_child].
+    destruct (parse_node_key_ok h) as (v0 & n0 & ->); [lia|]. eauto.
+Qed.
+
+Theorem decoded_node_writes nk buf n c :
+  decode_node_n nk buf = DOk (n, c) ->
+  (exists bz, write_node n = DOk bz) /\ (exists sz, encoded_size n = DOk sz).
+Proof.
+  intros H. destruct (decode_node_n_guard _ _ _ _ H) as (_ & _ & (_ & _ & Hg) & _).
+  unfold write_node, encoded_size.
+  destruct (rn_height n =? 0) eqn:Ez; [eauto|].
+  destruct Hg as (_ & _ & Hl & Hr).
+  destruct (child_guard_writes _ _ Hl) as (lk & -> & (lb & Hlb) & (ls & ->)).
+  destruct (child_guard_writes _ _ Hr) as (rk & -> & (rb & Hrb) & (rs & ->)).
+  cbn [opt_bytes]. rewrite Hlb, Hrb. eauto.
+Qed.
+
 (** [writeBytes]/[encodedSize] still index a child key of fewer than 12 bytes
     ([write_node]/[encoded_size] = [DPanic]), but no decoder produces such a key any more:
     [MakeNode] yields 12-byte keys or 32-byte hashes ([decode_node_n_guard]) and
@@ -537,7 +567,7 @@ Definition legacy_guard (L : nat) (n : raw_legacy_node) : Prop :=
     (exists v, ln_value n = Some v /\ (length v <= L)%nat) /\ ln_left n = [] /\ ln_right n = []
   else
     ln_value n = None /\ length (ln_left n) = 32%nat /\ length (ln_right n) = 32%nat /\
-    (64 < L)%nat.
+    (32 <= L)%nat.
 
 Definition legacy_guard_wf (n : raw_legacy_node) : Prop :=
   in_int64 (ln_size n) /\ in_int64 (ln_version n) /\ well_formed (ln_key n) /\
